@@ -85,7 +85,7 @@ pub fn run(ctx: &mut Ctx) {
     }
     // ---- implementation-only oracle: long histories, with injected and with real randomness ----
     let mut rng = ctx.rng("oracle");
-    let n = if ctx.quick() { 60 } else { 1500 };
+    let n = if ctx.quick() { 60 } else { 6000 };
     for k in 0..n {
         let ul = rng.range(1, 16) as usize;
         let u = rand_cred(&mut rng, ul);
